@@ -454,10 +454,10 @@ func RunC15(ep *core.Episode) {
 		api  int
 		want string
 	}
-	// 3..5: as 0..2, and the statement-level yields the driver inserts into the binder's decoder construction are honoured
-	ntk := tp.Choose("ntasks", 6)
+	// 6..8: as 0..2 (3..5 too), and the statement-level yields the driver inserts into the binder's decoder construction are honoured
+	ntk := tp.Choose("ntasks", 9)
 	ntasks := 2 + ntk%3
-	astOn := ntk >= 3 && os.Getenv("VSIM_AST_OFF") == ""
+	astOn := ntk >= 6 && os.Getenv("VSIM_AST_OFF") == ""
 	plans := make([][]*job, ntasks)
 	for k := 0; k < ntasks; k++ {
 		nj := 2 + tp.Choose("njobs", 5)
